@@ -48,6 +48,40 @@ pub use self::config::{
 pub use deadpool::managed::reexports::*;
 deadpool::managed_reexports!("redis", Manager, Connection, RedisError, ConfigError);
 
+/// Verification hooks (only compiled with `--cfg deadpool_verif`).
+///
+/// A deterministic simulator installs a connector once per process. Until it
+/// does [`Manager::create`] behaves exactly as without the cfg flag, and
+/// without the `deadpool_verif` cfg flag this module does not exist at all.
+#[cfg(deadpool_verif)]
+pub mod verif {
+    use std::{future::Future, pin::Pin, sync::OnceLock};
+
+    use redis::{aio::MultiplexedConnection, AsyncConnectionConfig, ConnectionInfo, RedisResult};
+
+    /// Future returned by a [`Connector`].
+    pub type ConnectFuture =
+        Pin<Box<dyn Future<Output = RedisResult<MultiplexedConnection>> + Send + 'static>>;
+
+    /// Replacement for `Client::get_multiplexed_async_connection_with_config`.
+    /// It receives the connection info of the manager's client and the
+    /// manager's connection config.
+    pub type Connector = fn(ConnectionInfo, AsyncConnectionConfig) -> ConnectFuture;
+
+    static CONNECTOR: OnceLock<Connector> = OnceLock::new();
+
+    /// Installs the connector. Returns `false` if one was already installed.
+    pub fn install(connector: Connector) -> bool {
+        CONNECTOR.set(connector).is_ok()
+    }
+
+    /// Returns the installed connector, if any.
+    #[inline]
+    pub fn connector() -> Option<Connector> {
+        CONNECTOR.get().copied()
+    }
+}
+
 /// Type alias for using [`deadpool::managed::RecycleResult`] with [`redis`].
 type RecycleResult = managed::RecycleResult<RedisError>;
 
@@ -175,6 +209,14 @@ impl managed::Manager for Manager {
     type Error = RedisError;
 
     async fn create(&self) -> Result<MultiplexedConnection, RedisError> {
+        #[cfg(deadpool_verif)]
+        if let Some(connect) = verif::connector() {
+            return connect(
+                self.client.get_connection_info().clone(),
+                self.connection_config.clone(),
+            )
+            .await;
+        }
         let conn = self
             .client
             .get_multiplexed_async_connection_with_config(&self.connection_config)
